@@ -226,6 +226,8 @@ def source_audit(files):
     bad = []
     for p in files:
         src = strip_lean_comments(open(p).read())
+        # string literals are data (e.g. the pinned Rust text of generated functions contains the word `unsafe`), not Lean code
+        src = re.sub(r'"(?:[^"\\\n]|\\.)*"', '""', src)
         for n, l in enumerate(src.splitlines(), 1):
             if FORBIDDEN.search(l):
                 bad.append(f"{os.path.relpath(p, VERIF)}: {l.strip()[:120]}")
